@@ -40,6 +40,8 @@ func isNodeMu(c *ssa.CallCommon) bool {
 func c04(c *an.Ctx) {
 	p := c.P
 
+	c.Check("R-DOM", "node.release invalidates before releasing (a released cached child must not be reused as valid)", 2, func(o *an.O) { ruleReleaseInvalidates(c, o) })
+
 	c.Check("R-LOCK", "reactive: every mutex acquired is released on all paths; only addOut holds two node locks, receiver first", 15, func(o *an.O) {
 		for _, fn := range p.ModuleFuncs(func(rel string) bool { return rel == rx }) {
 			ops, instrs := an.LockCalls(fn)
@@ -580,6 +582,73 @@ func c04(c *an.Ctx) {
 	})
 }
 
+
+// ruleReleaseInvalidates: node.release calls n.invalidate() unconditionally
+// before it marks the node released (shared by C04 and C08: a released but
+// not invalidated cached computation stays in the cache, detached from its
+// resources, and later invalidations are lost).
+func ruleReleaseInvalidates(c *an.Ctx, o *an.O) {
+	fn := c.NeedFunc(rx, "(*node).release")
+	n := fn.Params[0].Name()
+	var store ssa.Instruction
+	for _, ref := range an.FieldRefs(fn, rxPath(), "node", "released") {
+		if ref.Kind == "store" {
+			store = ref.Instr
+		}
+	}
+	if store == nil {
+		o.Fail(c.P.Pos(fn.Pos()), "release never sets the released flag")
+		return
+	}
+	o.Site(store)
+	var selfInv []ssa.Instruction
+	for _, i := range an.Calls(fn, an.Mod(rx, "node", "invalidate")) {
+		if an.PathOf(an.CallOf(i).Args[0]) == n {
+			selfInv = append(selfInv, i)
+			o.Site(i)
+		}
+	}
+	if an.Reach(fn, nil, an.NewBlocker(selfInv...))[store] {
+		o.FailAt(store, "a node can be released without having been invalidated first: a cached computation that is released stays in the rerunner's cache looking valid but detached from its resources, so their later invalidations never reach the rerunner")
+	}
+}
+
+// ruleFreshComputationKept: in Rerunner.run, after run(ctx, r.f) succeeded,
+// every path to a return stores the new computation in r.computation or
+// releases it (shared by C08 and C17: otherwise the resources it registered
+// are referenced forever and their cleanup never runs).
+func ruleFreshComputationKept(c *an.Ctx, o *an.O) {
+	fn := c.NeedFunc(rx, "(*Rerunner).run")
+	runFn := c.NeedFunc(rx, "run")
+	calls := an.CallsToFunc(fn, runFn)
+	an.Need(len(calls) == 1, "single run call in Rerunner.run")
+	call := calls[0]
+	o.Site(call)
+	fresh := extractOf(call.(ssa.Value), 0)
+	an.Need(fresh != nil, "result of run")
+	blk := an.NewBlocker()
+	for _, ref := range an.FieldRefs(fn, rxPath(), "Rerunner", "computation") {
+		if ref.Kind == "store" && ref.Val == fresh {
+			blk.Instr[ref.Instr] = true
+			o.Site(ref.Instr)
+		}
+	}
+	for _, g := range append(goCallsTo(fn, an.Mod(rx, "node", "release")), an.Calls(fn, an.Mod(rx, "node", "release"))...) {
+		if fa, ok := an.CallOf(g).Args[0].(*ssa.FieldAddr); ok && fa.X == fresh {
+			blk.Instr[g] = true
+			o.Site(g)
+		}
+	}
+	for _, e := range an.ErrResult(call.(ssa.Value)) {
+		for _, nt := range an.NilTests(fn, e) {
+			blk.AddEdge(nt.If.Block(), nt.NonNil) // error path: run() released it already
+		}
+	}
+	if e := an.ReachableAvoiding(fn, call, blk, an.Exits(fn, false)); e != nil {
+		o.FailAt(e, "after a successful computation Rerunner.run can return without storing the new computation in r.computation or releasing it: every resource it registered stays referenced, so cleanup callbacks never run (e.g. when the subscription ends while the run is in flight)")
+	}
+}
+
 func lockerMapOps(fn *ssa.Function) []ssa.Instruction {
 	var out []ssa.Instruction
 	an.Instrs(fn, func(i ssa.Instruction) {
@@ -619,6 +688,9 @@ func isConstNil(v ssa.Value) bool {
 
 func c08(c *an.Ctx) {
 	p := c.P
+
+	c.Check("R-DOM", "node.release invalidates before releasing (released cached computations must not look valid)", 2, func(o *an.O) { ruleReleaseInvalidates(c, o) })
+	c.Check("R-POST", "Rerunner.run keeps or releases every successfully computed computation", 2, func(o *an.O) { ruleFreshComputationKept(c, o) })
 
 	c.Check("R-DOM", "Rerunner.run: cache.cleanInvalidated precedes the computation; it deletes exactly the invalidated entries under the cache lock", 3, func(o *an.O) {
 		fn := c.NeedFunc(rx, "(*Rerunner).run")
